@@ -29,12 +29,20 @@ type world struct {
 	events []event
 }
 
+// add records an event. Handlers run on the goroutines of the units they observe, so the list is shared:
+// HLock is a no-op under the scheduler (a body is atomic between scheduling points) and a mutex in the race pass.
+func (w *world) add(e event) {
+	vsched.HLock()
+	w.events = append(w.events, e)
+	vsched.HUnlock()
+}
+
 func readStream[T any](w *world, name, streamMode string, sr *schema.StreamReader[T], kind string, unit string) {
 	// the copy belongs to the handler: whatever it does with it must not disturb the flow
 	switch streamMode {
 	case "close":
 		sr.Close()
-		w.events = append(w.events, event{name, kind, unit, "<closed>"})
+		w.add(event{name, kind, unit, "<closed>"})
 		return
 	case "read1":
 		v, err := sr.Recv()
@@ -45,7 +53,7 @@ func readStream[T any](w *world, name, streamMode string, sr *schema.StreamReade
 		} else if err != io.EOF {
 			p = "<err>"
 		}
-		w.events = append(w.events, event{name, kind, unit, "first:" + p})
+		w.add(event{name, kind, unit, "first:" + p})
 		return
 	}
 	var vals []any
@@ -62,7 +70,7 @@ func readStream[T any](w *world, name, streamMode string, sr *schema.StreamReade
 		vals = append(vals, any(v))
 	}
 	sr.Close()
-	w.events = append(w.events, event{name, kind, unit, "stream:" + bad + concatRendered(vals)})
+	w.add(event{name, kind, unit, "stream:" + bad + concatRendered(vals)})
 }
 
 // concatRendered concatenates the chunks a handler drained from its copy (chunk boundaries are not the
@@ -128,15 +136,15 @@ func concatRendered(vals []any) string {
 // recording handler; raw=true: a plain struct (no TimingChecker); otherwise built with HandlerBuilder.
 func (w *world) handler(name string, raw bool, streamMode string) callbacks.Handler {
 	onStart := func(ctx context.Context, info *callbacks.RunInfo, in callbacks.CallbackInput) context.Context {
-		w.events = append(w.events, event{name, "start", info.Name, render(in)})
+		w.add(event{name, "start", info.Name, render(in)})
 		return ctx
 	}
 	onEnd := func(ctx context.Context, info *callbacks.RunInfo, out callbacks.CallbackOutput) context.Context {
-		w.events = append(w.events, event{name, "end", info.Name, render(out)})
+		w.add(event{name, "end", info.Name, render(out)})
 		return ctx
 	}
 	onErr := func(ctx context.Context, info *callbacks.RunInfo, err error) context.Context {
-		w.events = append(w.events, event{name, "error", info.Name, "err"})
+		w.add(event{name, "error", info.Name, "err"})
 		return ctx
 	}
 	onStartS := func(ctx context.Context, info *callbacks.RunInfo, in *schema.StreamReader[callbacks.CallbackInput]) context.Context {
@@ -682,9 +690,11 @@ func main() {
 		"sequential consistency at synchronisation granularity; node bodies are atomic between their explicit yields, framework code between two synchronisation operations is atomic",
 		"no happens-before state caching here: the shared mutable state this property is about (handler slices) is plain memory",
 		"a handler designated to a graph node or a tools node is allowed to fire for the units inside it (context inheritance, by design); 'only there' is demanded for leaf nodes and never for siblings or the parent",
+		harness.RacePassAssumption,
 	}
-	c.Res.Explanation = "stateless exhaustive exploration of real graph runs with recording handlers; oracle per execution from the applicability relation: for every (handler, unit) applicable => exactly one start-type and one end-type event carrying that unit's name and the payload the unit consumed / produced, not applicable => no event; the flow result is unaffected by what handlers do with their stream copies; no hang, nothing left blocked"
+	c.Res.Explanation = "stateless exhaustive exploration of real graph runs with recording handlers; oracle per execution from the applicability relation: for every (handler, unit) applicable => exactly one start-type and one end-type event carrying that unit's name and the payload the unit consumed / produced, not applicable => no event; the flow result is unaffected by what handlers do with their stream copies; no hang, nothing left blocked. " + harness.RacePassExplanation
 	quick := c.Quick()
+	rp := c.StartRacePass("./checks/c10") // worker 0 only: native -race build of this package, free runs of the scenario bodies
 	bounds := []int{0, 1, 2}
 	if !quick {
 		bounds = []int{0, 1, 2, 3}
@@ -750,6 +760,7 @@ func main() {
 		}
 	}
 	c.ExploreAll()
+	rp.Collect()
 	c.Finish()
 }
 
